@@ -214,6 +214,34 @@ func viewSig(v *manager.View, withTags bool, battery []string, convs []string) *
 		sig.Search = map[string][]uint64{}
 		sig.SErr = map[string]string{}
 		for _, qs := range battery {
+			if pq, ok := strings.CutPrefix(qs, "PAGED:"); ok {
+				// the same search page by page (page size 2 unless the query says
+				// limit:N), as a result list in the UI is read: the pages together
+				// are the result
+				q, err := query.Parse(pq)
+				if err != nil {
+					sig.SErr[qs] = "parse: " + err.Error()
+					continue
+				}
+				ids := []uint64{}
+				for page := uint(0); page < 60; page++ {
+					more, _, _, err := v.SearchStreams(ctx, q, func(sc manager.StreamContext) error {
+						ids = append(ids, sc.Stream().ID())
+						return nil
+					}, manager.Limit(2, page))
+					if err != nil {
+						sig.SErr[qs] = err.Error()
+						break
+					}
+					if !more {
+						break
+					}
+				}
+				if _, bad := sig.SErr[qs]; !bad {
+					sig.Search[qs] = ids
+				}
+				continue
+			}
 			q, err := query.Parse(qs)
 			if err != nil {
 				sig.SErr[qs] = "parse: " + err.Error()
@@ -367,6 +395,19 @@ func (st *clientState) exec(op Op) (r OpResult) {
 	case "Status":
 		stt := mgr.Status()
 		r.Status = &stt
+	case "ConvStderr":
+		_, err := mgr.ConverterStderr(op.Conv, 1)
+		r.Err = errStr(err)
+	case "PrefetchPage":
+		v := mgr.GetView()
+		if q, err := query.Parse(op.Def); err == nil {
+			_, _, _, err = v.SearchStreams(context.Background(), q, func(sc manager.StreamContext) error {
+				_, err := sc.AllTags()
+				return err
+			}, manager.PrefetchAllTags(), manager.Limit(1, 0))
+			r.Err = errStr(err)
+		}
+		v.Release()
 	case "ListConverters":
 		for _, c := range mgr.ListConverters() {
 			r.Names = append(r.Names, fmt.Sprintf("%s:%d:%d", c.Name, c.CachedStreamCount, len(c.Processes)))
